@@ -52,7 +52,60 @@ def kernel_sample(F, d, p, rnd):
     return out or dict(kernel[rnd.randrange(len(kernel))])
 
 
+def _swap(F, path, i):
+    a, b = F[i], F[i + 1]
+    F[i], F[i + 1] = b, a
+    tau = lambda x: i + 1 if x == i else (i if x == i + 1 else x)
+    for c in F:
+        c["bd"] = {tau(x): v for x, v in c["bd"].items()}
+    path.append({"act": {"op": "vine_swap", "i": i, "ret_set": [False, True], "ret_ok": True}, "to": -1})
+
+
+def _insert(F, path, d, bd):
+    F.append({"dim": d, "bd": bd})
+    path.append({"act": {"op": "insert", "d": d, "bd_set": [{"x": x, "c": c} for x, c in sorted(bd.items())]}, "to": -1})
+
+
+def gen_walk_graph(rnd, p, steps, nmax):
+    """A graph (vertices, then edges, some of them closing cycles); then repeatedly: one cell travels forward through
+    admissible transpositions up to the position before the last cell, the last cell is removed and a new edge or
+    vertex is inserted in its place.  A cell reduced with the help of other columns is removed after its paired birth
+    has moved behind those columns: what the removal has to clean up is no longer where a fresh reduction leaves it."""
+    F, path = [], []
+    nv = rnd.randrange(3, 6)
+    for _ in range(nv):
+        _insert(F, path, 0, {})
+
+    def edge():
+        vs = [i for i, c in enumerate(F) if c["dim"] == 0]
+        u, v = sorted(rnd.sample(vs, 2))
+        return {u: p - 1 if p > 2 else 1, v: 1}
+    for _ in range(rnd.randrange(2, 6)):
+        if len(F) < nmax:
+            _insert(F, path, 1, edge())
+    while len(path) < steps:
+        n = len(F)
+        if n < 3:
+            break
+        i = rnd.randrange(0, n - 1)
+        back = rnd.random() < 0.25
+        rng_ = range(i, n - 2) if not back else range(i - 1, max(-1, i - 4), -1)
+        for j in rng_:
+            if j < 0 or j >= len(F) - 1 or j in F[j + 1]["bd"]:
+                break
+            _swap(F, path, j)
+        F.pop()
+        path.append({"act": {"op": "remove_last"}, "to": -1})
+        if sum(1 for c in F if c["dim"] == 0) >= 2 and rnd.random() < 0.8:
+            _insert(F, path, 1, edge())
+        else:
+            _insert(F, path, 0, {})
+    return path
+
+
 def gen_walk(rnd, p, steps, nmax, vine):
+    if vine and rnd.random() < 0.34:
+        return gen_walk_graph(rnd, p, steps, nmax)
     F = []
     path = []
     # every second walk: a transposition near the end is followed by remove_last down to (or just past) the swapped
@@ -60,12 +113,20 @@ def gen_walk(rnd, p, steps, nmax, vine):
     shrink_regrow = vine and rnd.random() < 0.5
     pending_removes = 0
     regrow = 0
+    forced = []   # swap chains: a transposition is followed by a neighbouring one (the same cell travels on, or the
+                  # cell that took its place travels back) and then by a single remove_last
     for _ in range(steps):
         ops = ["insert"] * 5 + ["remove_last"]
         if vine:
             ops += ["vine_swap"] * 4 + ["remove_maximal"]
         op = rnd.choice(ops)
         n = len(F)
+        forced_i = None
+        if forced and pending_removes == 0 and regrow == 0:
+            op = forced.pop(0)
+            if isinstance(op, tuple):
+                forced_i = op[1]
+                op = "vine_swap"
         if pending_removes > 0 and n > 0:
             op = "remove_last"
             pending_removes -= 1
@@ -116,9 +177,17 @@ def gen_walk(rnd, p, steps, nmax, vine):
             F.pop()
             path.append({"act": {"op": "remove_last"}, "to": -1})
         elif op == "vine_swap" and n >= 2:
-            i = rnd.randrange(n - 1)
-            if i in F[i + 1]["bd"]:
+            i = rnd.randrange(n - 1) if forced_i is None else forced_i
+            if i < 0 or i >= n - 1 or i in F[i + 1]["bd"]:
                 continue
+            if forced_i is None and not forced and not shrink_regrow and rnd.random() < 0.5:
+                r = rnd.random()
+                if r < 0.6:      # the cell at i travels on to the position before the last cell, which is then removed
+                    forced = [("vine_swap", j) for j in range(i + 1, n - 2)] + ["remove_last"]
+                elif r < 0.8:    # ... or travels back to the front
+                    forced = [("vine_swap", j) for j in range(i - 1, max(-1, i - 4), -1)] + ["remove_last"]
+                else:
+                    forced = [("vine_swap", i + rnd.choice([-1, 1]))] + ["remove_last"]
             a, b = F[i], F[i + 1]
             F[i], F[i + 1] = b, a
             tau = lambda x: i + 1 if x == i else (i if x == i + 1 else x)
